@@ -537,6 +537,10 @@ pub fn generate_c07(tier: &str, seed: u64, out: &mut Out) {
         "Source: s\nUploaders: Doe, John <j@e>, B <b@e>\n",
         "Source: s\nBuild-Depends: a (>= 1) | b [i386]  <x>   ,c\nX-Other: kept  as is\n",
         "# lead\n\nPackage: p\nDepends: z | a, m\n\n# mid\n\nSource: s\n",
+        // alternatives that compare equal but are written differently, with irregular spacing
+        "Package: x\nDepends: libbar (>= 0:1.2) | libbar  (>= 1.2), libc6\n",
+        "Package: x\nDepends: libbar  (>= 1.2) | libbar (>= 0:1.2), libc6\n",
+        "Package: x\nDepends: libbar [amd64 i386] | libbar  [i386 amd64]\nRecommends: foo  [i386 amd64] | foo [amd64 i386]\n",
     ];
     for t in ctl_docs.iter() {
         for ind in ["1", "2", "4", "f"] {
